@@ -64,7 +64,9 @@ def sec_ubox(draw):
         st.tuples(st.just("xc"), fl(-500, 500)), st.tuples(st.just("yc"), fl(-500, 500)),
         st.tuples(st.just("angle"), angle), st.tuples(st.just("aspect"), fl(0.2, 4.0)),
         st.tuples(st.just("height"), fl(2.0, 200.0)), st.tuples(st.just("confidence"), conf_any),
-        st.tuples(st.just("rotate"), fl(-3.2, 3.2)), st.tuples(st.just("gen_vertices"), st.none()), st.tuples(st.just("gen_vertices"), st.none())), max_size=6))
+        st.tuples(st.just("rotate"), fl(-3.2, 3.2)), st.tuples(st.just("gen_vertices"), st.none()), st.tuples(st.just("gen_vertices"), st.none()),
+        # (the orientation taken away again: the box is axis-aligned afterwards)
+        st.tuples(st.just("angle"), st.none())), max_size=6))
     return d
 
 
@@ -814,6 +816,15 @@ def one(script):
         stats["evaluations"] += 1
         for s in script["sections"]:
             stats["labels"][s["kind"]] = stats["labels"].get(s["kind"], 0) + 1
+            if s["kind"] == "ubox":
+                cur = s["box"].get("angle")
+                for name, v in s["edits"]:
+                    if name == "angle":
+                        if v is None and cur is not None:
+                            stats["labels"]["ubox_angle_removed_from_oriented_box"] = stats["labels"].get("ubox_angle_removed_from_oriented_box", 0) + 1
+                        cur = v
+                    elif name == "rotate":
+                        cur = v
             if s["kind"] == "nms" and s["score_threshold"] is not None and any(d["score"] is None and d["box"]["height"] <= s["score_threshold"] for d in s["dets"]):
                 stats["labels"]["nms_unscored_box_lower_than_score_threshold"] = stats["labels"].get("nms_unscored_box_lower_than_score_threshold", 0) + 1
         for s in script["sections"]:
